@@ -10,6 +10,7 @@ import (
 	"sync"
 	"time"
 
+	"github.com/hedzr/is/term/color"
 	"github.com/hedzr/logg/slog"
 
 	"verifharness/gen"
@@ -137,6 +138,9 @@ func c09hist(c *Ctx) {
 		p.msg = r.Str(gen.StrOpt{HostilePc: 30, NoESC: true})
 		if r.P(40) {
 			p.msg += "\nsecond line\nthird"
+			if r.P(40) {
+				p.msg += gen.Pick(r, []string{"\n", "\n\n", "\r\n"})
+			}
 		}
 		if strings.Trim(p.msg, "\n\r \t") == "" {
 			p.msg = "x" + p.msg
@@ -428,6 +432,29 @@ func c09hist(c *Ctx) {
 					c.R.Violation(idx, "bytes-differ", "C09/bytes-differ/parent-after-child/"+p.f.String(),
 						fmt.Sprintf("the parent's record differs after its child (which redefines some of the parent's keys) has logged (first difference at byte %d):\n before: …%s\n after:  …%s", at, q(clip(string(refP[lo:]), 300)), q(clip(string(got[lo:]), 300))),
 						map[string]any{"format": p.f.String(), "flags": int64(flagsNow), "child_own_attrs": gen.DescKVs(p.kvs[:half])})
+					return
+				}
+			}
+		}
+		// a severity that was logged BEFORE it was registered, next to one that was not: registered with titles that
+		// share their first five characters (so that their derived tags are equal) and the same colours, they print alike
+		if p.f == FColor && r.P(12) {
+			la, lb := slog.Level(7000+idx*2), slog.Level(7001+idx*2)
+			pre := p
+			pre.lvl, pre.as = la, nil
+			emit(pre) // unregistered: tag L#7…
+			ta, tb := fmt.Sprintf("audit%da", idx), fmt.Sprintf("audit%db", idx)
+			errA := slog.RegisterLevel(la, ta, slog.RegWithColor(color.FgLightGreen))
+			errB := slog.RegisterLevel(lb, tb, slog.RegWithColor(color.FgLightGreen))
+			if errA == nil && errB == nil {
+				pa, pb := p, p
+				pa.lvl, pa.as = la, nil
+				pb.lvl, pb.as = lb, nil
+				ba, bb := emit(pa), emit(pb)
+				c.R.Add("severities_logged_before_their_registration", 1)
+				if !bytes.Equal(ba, bb) {
+					c.R.Violation(idx, "bytes-differ", "C09/bytes-differ/logged-before-registration/color",
+						fmt.Sprintf("two severities registered alike (titles %q / %q, same colours) print differently; the first one had been logged once before it was registered:\n logged before: %s\n never logged:  %s", ta, tb, q(clip(string(ba), 200)), q(clip(string(bb), 200))), nil)
 					return
 				}
 			}
